@@ -20,7 +20,7 @@ RULE = (
     "processor, an async processor raising before its internal yield and one raising after it, plus fail-on-every-event and fail-at-shutdown, "
     "placed before or after a healthy recorder. Non-trivial = the failing processor actually raised; distinct = digest of (program shape, "
     "runner, failure index, variant, placement)."
-    ' The injected node failure (if any) is of one of five kinds incl. an exception without arguments. Processor objects are plain, unhashable (__eq__ without __hash__) or all-equal; the top-level map may be over an empty list. Cache dimension: cache-enabled runner, cacheable synchronous-bodied nodes and duplicate map items (a suspending processor must not decide whether a duplicate is a cache hit).'
+    ' The injected node failure (if any) is of one of five kinds incl. an exception without arguments. Processor objects are plain, unhashable (__eq__ without __hash__) or all-equal; the top-level map may be over an empty list. Cache dimension: cache-enabled runner, cacheable synchronous-bodied nodes and duplicate map items (a suspending processor must not decide whether a duplicate is a cache hit). Interpreter configuration: RuntimeWarning promoted to an error for all runs of a case.'
 )
 ASSUMPTIONS = [
     "healthy recorder's stream is compared exactly (canonical ids) for the sync runner and as a canonical span tree for the async runner, where a yielding failing processor may legitimately shift the interleaving of concurrent siblings",
@@ -52,6 +52,7 @@ def gen_case(rng: random.Random, tier: str) -> dict:
         # cache-enabled runner (a fresh InMemoryCache per execution), cacheable nodes with synchronous bodies and DUPLICATE map items:
         # whether a duplicate is served from the cache must not depend on whether a processor suspends while it is notified
         "cache": rng.random() < 0.3,
+        "warn_errors": rng.random() < 0.25,  # RuntimeWarning promoted to an error for every run of the case (with and without processors)
         "proc_identity": rng.choice(["plain", "plain", "unhashable", "equal"]),  # processors are ordinary objects: may be unhashable or compare equal
         "tier": tier,
         "plan_seed": rng.randrange(1 << 30),
@@ -107,7 +108,7 @@ def run_case(doc: dict) -> dict:
                 nd["cache"] = True
 
     def world(mode, procs_factory=None):
-        w = run_world(g, values, mode=("async_syncfn" if (use_cache and mode == "async") else mode), cfg=doc["async"] if mode == "async" else None, cache=InMemoryCache() if use_cache else None, faults=copy.deepcopy(faults), run_kwargs=dict(kw), op=op, processors_factory=procs_factory)
+        w = run_world(g, values, mode=("async_syncfn" if (use_cache and mode == "async") else mode), cfg=doc["async"] if mode == "async" else None, cache=InMemoryCache() if use_cache else None, warn_errors=bool(doc.get("warn_errors")), faults=copy.deepcopy(faults), run_kwargs=dict(kw), op=op, processors_factory=procs_factory)
         rts.append(w["rt"])
         res["runs"] += 1
         sim_stats(res, w["out"])
@@ -219,7 +220,7 @@ def shrink_candidates(doc: dict):
     if doc.get("only") is None:
         return
     yield from shrink_program(doc)
-    for key, val in (("top_map", None), ("max_iterations", None), ("proc_identity", "plain"), ("cache", False)):
+    for key, val in (("top_map", None), ("max_iterations", None), ("proc_identity", "plain"), ("cache", False), ("warn_errors", False)):
         if doc.get(key) and doc.get(key) != val:
             c = copy.deepcopy(doc)
             c[key] = val
